@@ -129,11 +129,37 @@ def anm_ivs(g, p, how=None):
     return [[t, rand_noise_spec(g)] for t in ts]
 
 
+def seed_value(s):
+    """Integer value of a seed literal (python int, or {'__np__': [dtype, value]})."""
+    if isinstance(s, dict):
+        return s["__np__"][1]
+    return s
+
+
+def seed_is_numpy(s):
+    return isinstance(s, dict)
+
+
+def np_seed(g, value):
+    """The same seed as a numpy integer scalar literal: a form the library has always accepted."""
+    dt = g.choice(["<i8", "<i8", "<u4", "<i4"]) if value < 2 ** 31 else g.choice(["<i8", "<u4"])
+    return {"__np__": [dt, value]}
+
+
+def seed_alphabet(g):
+    """Always 0; small, 2**32-1 and random 32-bit values; some of them as numpy integer scalars."""
+    base = [0, g.choice([1, 42, 7]), g.choice([2 ** 32 - 1, g.getrandbits(32)]), g.getrandbits(32)]
+    out = list(base)
+    if g.random() < 0.5:
+        out.append(np_seed(g, g.choice(base)))
+    if g.random() < 0.3:
+        out.append(np_seed(g, 0))
+    return out
+
+
 def seed_class(s):
-    if s is None:
+    v = seed_value(s)
+    if v is None:
         return "none"
-    if s == 0:
-        return "0"
-    if s < 1000:
-        return "small"
-    return "32bit"
+    c = "0" if v == 0 else "small" if v < 1000 else "32bit"
+    return c + ("/np" if seed_is_numpy(s) else "")
